@@ -610,11 +610,11 @@ func check(f *ach.File, label string, st *evalStats, tmpdir string, deep bool) [
 	if o := f.GetValidation(); o != nil {
 		tc.Opts, _ = json.Marshal(o)
 	}
-	offsetBug := hasOffsetEntries(f)
 	catxZero := hasCATXZeroAddenda(f)
+	catxOffset := hasCATXOffsetEntry(f)
 	fail := func(path, key, what string) {
-		if offsetBug && !strings.HasPrefix(key, "opts") {
-			key = "offset:upsert"
+		if catxOffset && (catxNameCols.MatchString(key) || key == "error") {
+			key = "json:catx:offset-entry-repacked"
 		} else if catxZero && (catxNameCols.MatchString(key) || (key == "error" && strings.Contains(what, "AddendaCount"))) {
 			key = "json:catx:zero-addenda-records"
 		} else if !strings.HasPrefix(key, "json:") {
@@ -1200,4 +1200,19 @@ func setIATAddendaSeq(e *ach.IATEntryDetail, seq int) {
 	for _, a := range e.Addenda18 {
 		a.EntryDetailSequenceNumber = seq
 	}
+}
+
+// hasCATXOffsetEntry: a CTX/ATX batch holding an entry named OFFSET (its IndividualName carries no addenda count)
+func hasCATXOffsetEntry(f *ach.File) bool {
+	for _, b := range f.Batches {
+		if s := b.GetHeader().StandardEntryClassCode; s != ach.CTX && s != ach.ATX {
+			continue
+		}
+		for _, e := range b.GetEntries() {
+			if strings.EqualFold(strings.TrimSpace(e.IndividualName), "OFFSET") {
+				return true
+			}
+		}
+	}
+	return false
 }
